@@ -6,6 +6,9 @@
 mod c07;
 mod c08;
 mod c11;
+mod codec;
+mod mutate;
+mod vtree;
 mod fields;
 mod framing;
 mod gen;
@@ -147,6 +150,8 @@ fn dispatch(p: &Params) -> Outcome {
         "C07" => c07::run(p),
         "C08" => c08::run(p),
         "C11" => c11::run(p),
+        "C01" => codec::run(p, codec::Which::C01),
+        "C09" => codec::run(p, codec::Which::C09),
         _ => {
             eprintln!("unknown property {}", p.prop);
             std::process::exit(2)
@@ -160,6 +165,8 @@ fn dispatch_replay(p: &Params, v: &Value) -> Outcome {
         "C07" => c07::replay(p, v),
         "C08" => c08::replay(p, v),
         "C11" => c11::replay(p, v),
+        "C01" => codec::replay(p, v, codec::Which::C01),
+        "C09" => codec::replay(p, v, codec::Which::C09),
         _ => {
             eprintln!("unknown property {}", p.prop);
             std::process::exit(2)
